@@ -91,6 +91,7 @@ class SysGen:
     # the same service under several spellings and with several ports, with and without a port
     HOSTS = ["svc-a:80", "svc-b", "svc-c.default:8888", "SVC-A:80", "unknown-host:80", "svc-a:8888", "svc-b:80", "svc-b:8888"]
     LOOKUP_TYPES = ["lds", "rds", "cds", "eds"]
+    E2E = 0.015         # probability (per operation) of a waiting lookup + response + join
     RESP_BIAS = []      # extra weight for some types of responses
     FQDN = {"svc-a": "svc-a.default.svc.cluster.local", "svc-b": "svc-b.default.svc.cluster.local",
             "svc-c.default": "svc-c.default.svc.cluster.local"}
@@ -261,6 +262,15 @@ class SysGen:
             if r.random() < 0.03:
                 case["ops"].append({"op": "dump"})       # Dump() renders the cache: an observation, no effect
                 continue
+            if not self.faults and r.random() < self.E2E:
+                # a lookup that WAITS (a real Get with a deadline), the next response, and the waiting caller's return
+                rt = r.choice(self.LOOKUP_TYPES)
+                pool = self.lis_names(istio) if rt == "lds" else self.NAMES[rt]
+                case["ops"].append({"op": "lookup_async", "rt": rt, "name": r.choice(pool), "ms": 1500})
+                op, tbl = self.resp(rt if r.random() < 0.8 else r.choice(types), istio, tbl)
+                case["ops"].append(op)
+                case["ops"].append({"op": "join"})
+                continue
             if k < 0.4:
                 rt = r.choice(self.LOOKUP_TYPES)
                 pool = self.lis_names(istio) if rt == "lds" else self.NAMES[rt]
@@ -321,6 +331,13 @@ def gop(op, st):
     if k == "recverr":
         return "ORecvErr %s" % gbool(op["auth"])
     if k in ("block_send", "unblock_send", "dump"):
+        return "OTick 0"
+    if k == "lookup_async":
+        return "OLookup %s %s" % (RT[op["rt"]], gstr(op["name"]))
+    if k == "join":
+        # the waiting caller returns what a lookup at this moment returns when the resource is cached (and nothing when it is not)
+        if st.get("joined") == "cached":
+            return "OLookup %s %s" % (RT[st["join_rt"]], gstr(st["join_name"]))
         return "OTick 0"
     if k == "burst_unblock":
         return "OLookups %s %s" % (RT[op["rt"]], glist(op["names"], gstr))
@@ -416,6 +433,8 @@ def shrink(c):
         if 0 < cut < len(ops):
             yield dict(c, ops=ops[:cut])
     for i in range(len(ops)):
+        if ops[i]["op"] == "join":
+            continue        # a waiting lookup is never left waiting across later operations
         yield dict(c, ops=ops[:i] + ops[i + 1:])
     for i, op in enumerate(ops):
         if op["op"] == "resp" and len(op["resources"]) > 0:
